@@ -96,7 +96,7 @@ class C19(Check):
             'Object counts 0, 1, few, and enough to fill 1..5 read chunks of 64 KiB. non-trivial = >= 2 objects; distinct = hash of the case')
     ASSUMPTIONS = ['orjson / json are trusted as JSON codecs; floats are finite; top-level items are dicts (domain of the property)']
     ANCHORS = ['rxsci/container/json.py', 'rxsci/io/file.py', 'rxsci/framing/line.py', 'rxsci/data/codec.py']
-    REQUIRED_TAGS = ['none', 'gzip', 'zstd', 'stream', 'path', 'fileobj', 'open_obj', 'empty', 'multi-chunk', 'astral']
+    REQUIRED_TAGS = ['none', 'gzip', 'zstd', 'stream', 'path', 'fileobj', 'open_obj', 'empty', 'multi-chunk', 'astral', 'whole-document']
     REQUIRED_OBSERVED = ['objects_compared']
 
     def __init__(self):
@@ -113,7 +113,7 @@ class C19(Check):
     def generate(self, rng, tier, shard, nshards):
         n = 260 if tier == 'quick' else 1500
         comps = [None, 'gzip', 'zstd']
-        modes = ['stream', 'reframed', 'path', 'fileobj', 'open_obj']
+        modes = ['stream', 'reframed', 'path', 'fileobj', 'open_obj', 'whole']
         for k in range(n):
             shape = k % 8
             if shape == 0:
@@ -132,7 +132,7 @@ class C19(Check):
             long = rng.choice([0, 0, 300, 3000]) if shape >= 4 else 0
             yield {'objs': {'n': cnt, 'alpha': alpha, 'maxstr': rng.choice([3, 20, 200]), 'pad': k % 4,
                             'long': long, 'oseed': rng.randrange(1 << 30), 'fields': rng.choice([1, 4, 8])},
-                   'compression': comps[k % 3], 'mode': modes[(k // 3) % 5]}
+                   'compression': comps[k % 3], 'mode': modes[(k // 3) % 6]}
 
     def evaluate(self, case):
         out = Outcome()
@@ -140,7 +140,7 @@ class C19(Check):
         comp = case['compression']
         mode = case['mode']
         out.tags += [comp or 'none', case['objs']['alpha']]
-        out.tags.append('stream' if mode in ('stream', 'reframed') else mode)
+        out.tags.append('stream' if mode in ('stream', 'reframed') else 'path' if mode == 'whole' else mode)
         if not objs:
             out.tags.append('empty')
         if len(objs) >= 2:
@@ -166,6 +166,18 @@ class C19(Check):
                 src = rx.from_(cut(blob, cuts)).pipe(line.unframe())
             got = subscribe(src.pipe(J.load()), Snap())
             size = sum(len(x) for x in d.out)
+        elif mode == 'whole':
+            # a single JSON document read back with lines=False (the file is decoded and parsed as a whole)
+            objs = objs[:1] or [{'only': 1}]
+            path = os.path.join(self._tmpdir(), 'w.json')
+            if os.path.exists(path):
+                os.unlink(path)
+            w = subscribe(rx.from_(objs).pipe(J.dump_to_file(path, compression=comp)), Snap())
+            if w.err is not None or not w.done:
+                return out.fail('dump_to_file-failed', error=repr(w.err), done=w.done)
+            size = os.path.getsize(path)
+            got = subscribe(J.load_from_file(path, lines=False, compression=comp), Snap())
+            out.tags.append('whole-document')
         else:
             size = None
             if mode == 'path':
